@@ -44,6 +44,37 @@ def c08(A):
         if x["where"] in ("timer", "loopingcall"):
             o.bad("timer-raises/%s/%s" % (x["etype"], (x.get("name") or "?").split(".")[-1]),
                   "%s escaped from a timer callback (%s): %s" % (x["etype"], x.get("name"), x["msg"]), x)
+    # Which delayed call is "the packet's own retry timer"?  The one created in the same activation
+    # right before the write, or right after it -- whichever reading holds for every retransmittable
+    # write of this history (the library arms its alarm consistently on one side of the write).
+    allw = [e for txs in streams.values() for e in txs]
+    nb = sum(1 for e in allw if e["before"])
+    na = sum(1 for e in allw if e["after"])
+    side = None
+    if allw and nb == len(allw) and na < len(allw):
+        side = "before"
+    elif allw and na == len(allw) and nb < len(allw):
+        side = "after"
+    elif allw:
+        o.stats["attribution_ambiguous"] = o.stats.get("attribution_ambiguous", 0) + 1
+
+    draws = A.end.get("draws", []) if A.end else []
+
+    def own_draw(e):
+        """The jitter drawn for the timer armed with this transmission."""
+        n = e.get("ndraws")
+        if n is None or side is None:
+            return None
+        k = n - 1 if side == "before" else n
+        return draws[k] if 0 <= k < len(draws) else None
+
+    def own_timer(e):
+        if side == "before":
+            return e["before"][-1]
+        if side == "after":
+            return e["after"][0]
+        return None
+
     for key, txs in streams.items():
         kind = key[0]
         r = _req_of(A, key)
@@ -105,8 +136,11 @@ def c08(A):
                 for (g1, x1, y1), (g2, x2, y2) in zip(gaps, gaps[1:]):
                     if g2 < g1 - 4e-6:
                         # is it only the jitter?  (gap = deterministic part + recorded draw)
-                        d1 = x1.get("draw") or 0.0
-                        d2 = x2.get("draw") or 0.0
+                        d1, d2 = own_draw(x1), own_draw(x2)
+                        if d1 is None or d2 is None:
+                            if A.cfg.jitter != "const":
+                                continue        # cannot separate the jitter from the deterministic part here
+                            d1 = d2 = 0.0
                         det_ok = (g2 - d2) >= (g1 - d1) - 4e-6
                         f = c_factor(A, c, x1)
                         sub = "jitter-only" if det_ok else ("factor<1" if f is not None and f < 1 else "deterministic")
@@ -116,7 +150,7 @@ def c08(A):
         # ---- progress: when a packet's own timer expires while it is still outstanding
         #      on a connection that is up, it is written again in that step
         for e in txs:
-            seq = e.get("tseq")
+            seq = own_timer(e)
             if seq is None or seq not in timers:
                 continue
             tm = timers[seq]
